@@ -157,7 +157,8 @@ func (cl Serializer) DecodeDnsRequest(request []byte) (Request, error) {
 		return nil, errors.Errorf("Invalid request: no data")
 	}
 	for _, c := range Commands {
-		if c.IsOfType(request) {
+		// commands without a request type (login, multi-query, error) cannot be decoded as requests
+		if c.IsOfType(request) && c.NewRequest != nil {
 			req := c.NewRequest()
 			err := req.Decode(cl.Upstream.Encoder, request)
 			if err != nil {
